@@ -6,6 +6,7 @@ import impl
 import pcommon
 from cxxheaderparser.lexer import LexerTokenStream, PlyLexer, LexError
 
+TECHNIQUE = 'Lean 4: partition theorem of the PLY loop for every rule set and input (token is a prefix; texts + skipped pieces = input), keyword theorem on the regenerated keyword set, matcher = priority-order paths; token-by-token correspondence with PlyLexer; literal/punctuator oracles'
 LEAN_TARGET = "CxxModel.Props.C08"
 THEOREMS = ["Cxx.C08_token_is_prefix", "Cxx.C08_partition", "Cxx.C08_keyword_never_name", "Cxx.C08_matcher_is_paths", "Cxx.C08_name_rule", "Cxx.rules_supported",
             "Cxx.lexer_helpers_standard"]
